@@ -172,6 +172,19 @@ def prop_graph(case):
                 raise Violation("captured-path", "captured_path of %s wrong: %s" % (pn, [str(x) for x in cp]))
             if stored not in [x for x in stored._refs.get("paths", [])] and path not in stored._refs.get("paths", []):
                 raise Violation("path-backref", "stored link does not back-reference path %s" % pn)
+        # the complement() of the stored (connected) link is a free line: it belongs to no Gfa, refers to its
+        # segments by name, and another Gfa that does not hold the edge takes it as a new link
+        comp = stored.complement()
+        if comp.is_connected() or comp.gfa is not None:
+            raise Violation("complement-connected", "complement() of the stored link %r reports to be connected" % str(stored))
+        if any(isinstance(comp.get(fn_), gfapy.Line) for fn_ in ("from_segment", "to_segment")):
+            raise Violation("complement-aliases-graph", "complement() of the stored link %r refers to Line objects of the Gfa (%r)" % (
+                str(stored), [type(comp.get(fn_)).__name__ for fn_ in ("from_segment", "to_segment")]))
+        g4 = gfapy.Gfa(segs, version="gfa1", vlevel=vlevel)
+        g4.add_line(comp)
+        if len(g4.dovetails) != 1 or not comp.is_connected():
+            raise Violation("complement-not-added", "complement() of the stored link %r offered to another Gfa (segments only): %d dovetails\n%s" % (
+                str(stored), len(g4.dovetails), g4))
         before = O.observe(g)
         btxt = str(g)
         ctags = list(case.get("ctags", []))
